@@ -181,6 +181,11 @@ func runC04(r *mc.Run) {
 			}
 		}
 		ti.TcbLevels = []world.Level{c04Level(p, q.tee, l1p, statuses[l1s])}
+		// other spellings of the first level's status: only Intel's own spelling is that status
+		if sp := c.Choose("l1.status-spelling", 5); sp != 0 {
+			st := statuses[l1s]
+			ti.TcbLevels[0].TcbStatus = []string{st, strings.ToUpper(st), strings.ToLower(st), strings.ToLower(st[:1]) + st[1:], st + " "}[sp]
+		}
 		if nlev == 0 {
 			ti.TcbLevels = []world.Level{}
 		}
@@ -200,6 +205,9 @@ func runC04(r *mc.Run) {
 		mid := fmt.Sprintf("TDX_%02x", q.tee[1])
 		isv := int(q.tee[0]) + []int{0, -1, 1}[misv]
 		mlevels := []world.Level{{Tcb: world.Tcb{Isvsvn: world.IntP(isv)}, TcbDate: "2029-01-01T00:00:00Z", TcbStatus: statuses[mstat]}}
+		if sp := c.Choose("module.status-spelling", 3); sp != 0 {
+			mlevels[0].TcbStatus = []string{"", strings.ToUpper(statuses[mstat]), strings.ToLower(statuses[mstat])}[sp]
+		}
 		switch m2 {
 		case 1:
 			mlevels = append(mlevels, world.Level{Tcb: world.Tcb{Isvsvn: world.IntP(int(q.tee[0]) - 2)}, TcbDate: "2028-01-01T00:00:00Z", TcbStatus: "UpToDate"})
@@ -255,7 +263,8 @@ func runC04(r *mc.Run) {
 		q := quotes[qi]
 		w := q.w
 		raw := world.MustJSON(ti)
-		soundOnly := rawEdit != nil
+		// a document with a status string the library cannot decode may be refused as a whole (wherever the level stands)
+		soundOnly := rawEdit != nil || c04HasOddStatus(ti)
 		if rawEdit != nil {
 			raw = rawEdit(raw)
 			if !json.Valid(raw) {
@@ -519,4 +528,25 @@ func c04Dates(ls []world.Level, mode int) {
 			ls[i].TcbDate = fmt.Sprintf("20%02d-03-01T00:00:00Z", 40+i)
 		}
 	}
+}
+
+// c04HasOddStatus: some level of the document carries a status that is not one of Intel's seven spellings.
+func c04HasOddStatus(ti world.TcbInfo) bool {
+	known := map[string]bool{}
+	for _, st := range world.Statuses {
+		known[st] = true
+	}
+	for _, l := range ti.TcbLevels {
+		if !known[l.TcbStatus] {
+			return true
+		}
+	}
+	for _, mi := range ti.TdxModuleIdentities {
+		for _, l := range mi.TcbLevels {
+			if !known[l.TcbStatus] {
+				return true
+			}
+		}
+	}
+	return false
 }
